@@ -466,7 +466,12 @@ class SimProcess:
             return
         self.alive = False
         reason = error.ProcessDone(0) if code == 0 else error.ProcessTerminated(code, None, code << 8)
-        self.proto.processEnded(Failure(reason))
+        try:
+            self.proto.processEnded(Failure(reason))
+        except (Budget, HarnessError):
+            raise
+        except Exception as e:  # noqa  (the real reactor logs it and goes on)
+            self.sim.on_unhandled('process', 'processEnded', e, None)
 
     def signalProcess(self, _sig):
         pass
